@@ -36,7 +36,7 @@ TARGETS = [
 ]
 BOUNDS = {
     "histories": "all sequences of <= 3 (quick) / 4 (thorough) operations out of 10 operation kinds, then one of 6 probe rules",
-    "set-ups": "shipped test backend with mapping/state/failure pipeline; verification backend in NOT-as-not-equals mode with the same pipeline; strict field mapping pipeline",
+    "set-ups": "shipped test backend with mapping/state/failure pipeline; verification backend in NOT-as-not-equals mode with the same pipeline; strict field mapping pipeline; external-source placeholder pipeline; verification backend whose query envelope reads the pipeline state with a class-level default",
     "outside": "longer histories; other processes (C20); external-source value caches (C16 covers their gating)",
 }
 ASSUMPTIONS = ["fresh set-up = new backend instance of the same class, new pipeline from the same YAML, _parse_condition_string.cache_clear(), SigmaModifier._type_hint_cache.clear()"]
@@ -46,13 +46,15 @@ PROBES = [0, 8, 10, 11, 12, 14, 15]
 TEMPLATE_ATTRS = [
     "eq_expression", "re_expression", "cidr_expression", "startswith_expression", "endswith_expression", "contains_expression",
     "case_sensitive_startswith_expression", "case_sensitive_endswith_expression", "case_sensitive_contains_expression",
-    "explicit_not_exists_expression", "field_not_exists_expression", "eq_token", "precedence",
+    "explicit_not_exists_expression", "field_not_exists_expression", "eq_token", "precedence", "state_defaults", "query_expression",
 ]
 
 
 def backend_class(bk: int):
     if bk == 0:
         return TextQueryTestBackend
+    if bk == 2:  # query envelope that reads the pipeline state, with a class-level default
+        return type(make_backend(0, query_expression="Q<{state[seen]}>{query}", state_defaults={"seen": "no"}))
     return type(make_backend(12))
 
 
@@ -89,7 +91,7 @@ def run_history(ops, probe_kind, bk, pipe, mode=0) -> bool:
     cls = backend_class(bk)
     clear_caches()
     A = new_backend(cls, pipe)
-    snapshot = {a: getattr(cls, a, None) for a in TEMPLATE_ATTRS}  # after the first instantiation (lazy class set-up in __new__)
+    snapshot = {a: copy.deepcopy(getattr(cls, a, None)) for a in TEMPLATE_ATTRS}  # after the first instantiation (lazy class set-up in __new__)
     B = None
     for step, op in enumerate(ops):
         i = 10 + step
@@ -170,8 +172,8 @@ def c15_concrete(o0: int, o1: int, o2: int, o3: int, probe_kind: int, bk: int, p
 
 OBLIGATIONS = (
     [Ob("c15_history", {"BK": 0, "PIPE": 1, "O0LO": o, "O0HI": o, "LEN": 3}, 900) for o in range(1, NOPS)]
-    + [Ob("c15_history", {"BK": bk, "PIPE": pp, "O0LO": lo, "O0HI": lo + 2, "LEN": 2}, 600) for bk, pp in ((1, 1), (0, 2), (0, 3)) for lo in (1, 4, 7)]
-    + [Ob("c15_history", {"BK": bk, "PIPE": pp, "O0LO": o, "O0HI": o, "LEN": 3}, 3000, tier="thorough") for bk, pp in ((1, 1), (0, 2)) for o in range(1, NOPS)]
+    + [Ob("c15_history", {"BK": bk, "PIPE": pp, "O0LO": lo, "O0HI": lo + 2, "LEN": 2}, 600) for bk, pp in ((1, 1), (0, 2), (0, 3), (2, 1)) for lo in (1, 4, 7)]
+    + [Ob("c15_history", {"BK": bk, "PIPE": pp, "O0LO": o, "O0HI": o, "LEN": 3}, 3000, tier="thorough") for bk, pp in ((1, 1), (0, 2), (2, 1)) for o in range(1, NOPS)]
     + [Ob("c15_history", {"BK": 0, "PIPE": 1, "O0LO": o, "O0HI": o, "LEN": 4}, 6000, tier="thorough") for o in range(1, NOPS)]
 )
 
